@@ -27,6 +27,39 @@ def parseRat? (s : String) : Option Rat :=
 def showRat (q : Rat) : String :=
   if q.den = 1 then toString q.num else s!"{q.num}/{q.den}"
 
+/-- Floats travel as the decimal integer of their IEEE-754 bit pattern (`b<bits>`), so
+nothing is lost in either direction; plain decimals (`1.5e-3`, `-2`, `inf`, `nan`) are
+accepted on input as a convenience. -/
+def parseFloat? (s : String) : Option Float :=
+  if s.startsWith "b" then (s.drop 1).toString.toNat?.map (fun n => Float.ofBits n.toUInt64)
+  else if s == "inf" then some (1.0 / 0.0)
+  else if s == "-inf" then some (-1.0 / 0.0)
+  else if s == "nan" then some (0.0 / 0.0)
+  else
+    let (neg, body) := if s.startsWith "-" then (true, (s.drop 1).toString)
+                       else if s.startsWith "+" then (false, (s.drop 1).toString) else (false, s)
+    let (mant, ex) := match (body.split (fun c => c == 'e' || c == 'E')).toList.map (·.toString) with
+      | [m] => (m, some (0 : Int))
+      | [m, e] => (m, e.toInt?)
+      | _ => ("", none)
+    match ex with
+    | none => none
+    | some ex =>
+      let (ip, fp) := match splitOn1 mant '.' with
+        | [i] => (i, "")
+        | [i, f] => (i, f)
+        | _ => ("x", "")
+      match (ip ++ fp).toNat? with
+      | none => none
+      | some digits =>
+        if (ip ++ fp) == "" then none else
+        let e10 : Int := ex - fp.length
+        let v := if e10 ≥ 0 then Float.ofScientific (digits * 10 ^ e10.toNat) false 0
+                 else Float.ofScientific digits true e10.natAbs
+        some (if neg then -v else v)
+
+def showFloat (x : Float) : String := s!"b{x.toBits.toNat}"
+
 /-- Read stdin line by line, threading a state; a line `reset` restores the initial state. -/
 partial def loop {σ : Type} (init : σ) (step : σ → String → σ × String) : IO Unit := do
   let h ← IO.getStdin
